@@ -57,12 +57,16 @@ class Gen:
         bram, bdisk = (s, 0) if stg == "RAM" else (0, s)
         self.sched(comp, "mixed %d %d %s %s" % (N, s, stg, path), N, False, bram, bdisk, ["r1:%d" % lim, "n", "n"])
 
-    def rev(self, kind, N, r, d, cost, comp=None):
+    def rev(self, kind, N, r, d, cost, comp=None, scale=0):
+        """scale > 0: the implementation is given the costs divided by `scale` (a power of two: exact binary fractions), the
+        model the integers themselves -- every decision of the generators is a comparison of linear forms in the costs, so the
+        stream must be the same"""
         comp = comp or ("stream." + kind)
         uf, ub, wd, rd = cost
         lim = 40 * N * max(1, N.bit_length()) + 100
         bdisk = {"revolve": 0, "disk": None, "periodic": None, "hrevolve": d}[kind]
-        self.sched(comp, "rev %s %d %d %d %d %d %d %d" % (kind, N, r, d, uf, ub, wd, rd), N, False, r, bdisk, ["r1:%d" % lim, "n", "n"])
+        ps = "rev %s %d %d %d %d %d %d %d" % (kind, N, r, d, uf, ub, wd, rd) + (" %d" % scale if scale else "")
+        self.sched(comp, ps, N, False, r, bdisk, ["r1:%d" % lim, "n", "n"])
 
     # ---- histories: random interleavings of next / finalize(k) with k around the interesting values ----
     def history(self, comp, ps, N, length, online, keep, bram, bdisk, n_est):
@@ -132,6 +136,10 @@ def generate(seed, tier):
         g.mixed(N, s, rng.choice(["RAM", "DISK"]), "tab")
         if N <= 70:
             g.mixed(N, s, rng.choice(["RAM", "DISK"]), "memo")
+    # more units than steps at sizes beyond the small box (a cap on the number of units considered would show here; cheap: the
+    # memoised planner answers these without a search)
+    for N, s in ([(260, 259), (300, 299), (270, 400)] + ([(520, 519), (700, 1000)] if thorough else [])):
+        g.mixed(N, s, "RAM" if N % 20 else "DISK", "memo")
     # ---------------- Revolve family
     NN, RR, DD = (22, 4, 3) if thorough else (14, 3, 2)
     costs = COSTS if thorough else COSTS[:9]
@@ -150,6 +158,15 @@ def generate(seed, tier):
             for r in (1, 2):
                 for d in (2, 3):
                     g.rev("hrevolve", N, r, d, c)
+    # fractional costs: the same integer vectors, handed to the implementation divided by a power of two
+    for c in [(1, 1, 2, 2), (1, 2, 1, 1), (2, 1, 3, 1), (1, 1, 0, 1)]:
+        for sc in ((2, 8, 32) if thorough else (8,)):
+            for N in range(2, (20 if thorough else 12) + 1):
+                for r in (1, 2, 3):
+                    g.rev("revolve", N, r, 0, c, scale=sc)
+                    g.rev("disk", N, r, 0, c, scale=sc)
+                    g.rev("periodic", N, r, 0, c, scale=sc)
+                    g.rev("hrevolve", N, r, 1, c, scale=sc)
     for _ in range(200 if thorough else 40):
         N = rng.randint(NN, 150 if thorough else 90)
         r = rng.randint(1, 6)
